@@ -39,6 +39,36 @@ func typeVarTarget(w *World, o types.Object) string {
 func reflectTypeOfTarget(info *types.Info, e ast.Expr) string {
 	c, ok := unparen(e).(*ast.CallExpr)
 	if !ok {
+		// a package variable that holds such a type (reservedTypes keyed by contextType, …)
+		if o := objOf(info, e); o != nil && theWorld != nil {
+			if _, isVar := o.(*types.Var); isVar && o.Parent() == o.Pkg().Scope() {
+				return typeVarTarget(theWorld, o)
+			}
+		}
+		return ""
+	}
+	// reflect.TypeFor[X]() or a generic helper of the repository that returns the type of its type parameter
+	isTypeOfHelper := func(cal *types.Func) bool {
+		if cal == nil || theWorld == nil {
+			return false
+		}
+		if o := cal.Origin(); o != nil {
+			cal = o
+		}
+		t := theWorld.Decls[cal]
+		if t == nil || t.Decl.Body == nil || len(t.Decl.Body.List) != 1 {
+			return false
+		}
+		ret, ok := t.Decl.Body.List[0].(*ast.ReturnStmt)
+		return ok && len(ret.Results) == 1 && isTypeOfTypeParam(t.Pkg.TypesInfo, ret.Results[0], t)
+	}
+	if targ := typeArgOfCall(info, c); targ != nil && (isFunc(callee(info, c), "reflect", "", "TypeFor") || isTypeOfHelper(callee(info, c))) {
+		if n := namedOf(targ); n != nil {
+			if n.Obj().Pkg() != nil {
+				return n.Obj().Pkg().Name() + "." + n.Obj().Name()
+			}
+			return n.Obj().Name()
+		}
 		return ""
 	}
 	sel, ok := unparen(c.Fun).(*ast.SelectorExpr)
@@ -369,6 +399,16 @@ func checkC18(w *World, r *Report) {
 				}
 				return true
 			})
+			// through a predicate: if isReservedType(descriptor.Type) { return error }
+			predCalls := map[string]bool{}
+			for _, c := range callsIn(fi.Decl.Body, true) {
+				if cal := callee(info, c); cal != nil && reservedPredicate(w, cal) && len(c.Args) == 1 {
+					if isFieldNamed(info, c.Args[0], "Type") && objOf(info, selBase(c.Args[0])) == dParam {
+						predCalls[exprStr(c)] = true
+						onType = true
+					}
+				}
+			}
 			fl := w.FlowOf(fi)
 			sol := fl.Solve(Spec{Must: true, Edge: func(b *cfg.Block, i int, cond ast.Expr, in Facts) (gen, kill []string) {
 				if cond == nil {
@@ -379,7 +419,7 @@ func checkC18(w *World, r *Report) {
 				if u, ok := c.(*ast.UnaryExpr); ok && u.Op == token.NOT {
 					c, neg = unparen(u.X), true
 				}
-				if resOK[objOf(info, c)] {
+				if resOK[objOf(info, c)] || predCalls[exprStr(c)] {
 					if (i == 0) != neg {
 						gen = append(gen, "reserved")
 					} else {
